@@ -195,8 +195,22 @@ def run_tlc(spec_dir, module, cfg, workdir, files=None, workers=None, simulate=N
            "cmd": " ".join(cmd[cmd.index("tlc2.TLC"):]), "log": logf, "rc": p.returncode, "violated": []}
     tail = []
     with open(logf) as fh:
+        pending = None
         for line in fh:
             line = line.rstrip("\n")
+            # TLC wraps a printed tuple that is wider than its line width over several lines: re-join it
+            if pending is not None:
+                pending += " " + line.strip()
+                if line.rstrip().endswith(">>"):
+                    line = pending.replace('<< "MISMATCH"', '<<"MISMATCH"', 1)
+                    if line.endswith(" >>"):
+                        line = line[:-3] + ">>"
+                    pending = None
+                else:
+                    continue
+            elif line.startswith('<< "MISMATCH",') and not line.rstrip().endswith(">>"):
+                pending = line.strip()
+                continue
             tail.append(line)
             if len(tail) > 60:
                 tail.pop(0)
@@ -217,6 +231,10 @@ def run_tlc(spec_dir, module, cfg, workdir, files=None, workers=None, simulate=N
             elif line.startswith("Error: Invariant ") or line.startswith("Error: Action property") or \
                     line.startswith("Error: Temporal properties were violated") or "is violated" in line:
                 res["violated"].append(line)
+    with open(logf) as fh:
+        raw = fh.read().count('"MISMATCH"')
+    if raw > len(res["mismatches"]) and len(res["mismatches"]) < max_mismatch:
+        raise Infra("TLC printed %d MISMATCH tuples but %d were parsed (%s)" % (raw, len(res["mismatches"]), logf))
     res["tail"] = "\n".join(tail)
     completed = ("Model checking completed" in res["tail"]) or ("Finished in" in res["tail"])
     if not completed or ("Error:" in res["tail"] and not res["violated"]):
